@@ -1,13 +1,18 @@
 (* Run.v — entry points specialised to the executable instance, for
    extraction and for vm_compute cross-checks. *)
 From Coq Require Import ZArith List Bool Arith Lia.
-From RV Require Import Val Syntax Rho Offline Online Sat ExtZ.
+From RV Require Import Val Syntax Rho Offline Online Sat IA ExtZ.
 Import ListNotations.
 
 Definition zformula := @formula ExtZVal.
 Definition ztrace := @trace ExtZVal.
 
 Definition pk_std : zformula -> zformula -> pkind := fun _ _ => PStd.
+
+(* io given as the list of input-variable flags *)
+Definition io_of (l : list bool) : nat -> bool := fun x => nth x l false.
+Definition pk_ia_impl (sem : semantics) (l : list bool) : zformula -> zformula -> pkind := pk_impl (io_of l) sem.
+Definition pk_ia_spec (sem : semantics) (l : list bool) : zformula -> zformula -> pkind := pk_spec (io_of l) sem.
 
 Definition run_hor (p : zformula) : nat := hor p.
 Definition run_bounded_future (p : zformula) : bool := bounded_future p.
